@@ -186,6 +186,8 @@ extern "C" void vt_status_f(const char *op, long val, int a0, int o0, int a1, in
     std::fflush(stdout);
 }
 extern "C" void vt_base(void) { vt_base_cxx = vt_cxx_live; vt_ctor = 0; }
+extern "C" void vt_mal_begin(void) { vt_mal_live = 0; vt_count_malloc = 1; }
+extern "C" void vt_mal_end(const char *op) { vt_count_malloc = 0; std::printf("MAL %s %ld\n", op, vt_mal_live); std::fflush(stdout); vt_mal_live = 0; }
 #ifndef VT_ASAN
 extern "C" void *__wrap_malloc(size_t n) { void *p = __real_malloc(n); if (vt_count_malloc && p) vt_mal_live++; return p; }
 extern "C" void __wrap_free(void *p) { if (vt_count_malloc && p) vt_mal_live--; __real_free(p); }
@@ -310,6 +312,12 @@ module vt_c
     end subroutine
     subroutine vt_base() bind(C, name="vt_base")
     end subroutine
+    subroutine vt_mal_begin() bind(C, name="vt_mal_begin")
+    end subroutine
+    subroutine vt_mal_end(op) bind(C, name="vt_mal_end")
+      import
+      character(kind=C_CHAR) :: op(*)
+    end subroutine
     subroutine vt_status_f(op, val, a0, o0, a1, o1) bind(C, name="vt_status_f")
       import
       character(kind=C_CHAR) :: op(*)
@@ -419,6 +427,7 @@ program drv
 #endif
     case ('T')
       vt_seen = -1
+      call vt_mal_begin()   ! blocks the wrapper allocates for its temporaries must be gone when it returns
       select case (op(2:2))
       case ('s')
         call take_str('hello world, this is a long argument     ')
@@ -445,6 +454,7 @@ program drv
         call vecstr_case(id)
 #endif
       end select
+      call vt_mal_end(trim(op) // C_NULL_CHAR)
       if (op(2:2) /= 'm' .and. op(2:2) /= 'o' .and. op(2:2) /= 'g' .and. op(2:2) /= 'f') val = vt_seen
     end select
     call status(trim(op), val)
@@ -1080,6 +1090,11 @@ def run_history(args):
     exe, hist, asan = args
     env = dict(os.environ, ASAN_OPTIONS="detect_leaks=1:exitcode=99:abort_on_error=0")
     rc, so, se = build.sh([exe] + list(hist), os.path.dirname(exe), env=env, timeout=60)
+    # a positive balance: allocated inside the call and still there (a negative one is the Fortran runtime releasing an older block)
+    leaks = [l for l in so.split("\n") if l.startswith("MAL ") and int(l.split()[-1]) > 0]
+    if leaks and not asan:
+        # malloc blocks a wrapper allocated for a temporary and did not free before it returned
+        return 77, [l for l in so.split("\n") if l.startswith("ST ")], "TEMPORARY-NOT-FREED " + "; ".join(leaks)
     return rc, [l for l in so.split("\n") if l.startswith("ST ")], ((se or "")[:900] + (" ... " + se[-400:] if len(se or "") > 1300 else (se or "")[900:]))
 
 
